@@ -80,7 +80,15 @@ def judge_ok(pu, text, unit, ref, exp):
         return bad + [("units.to_user_raises", want_user, type(ex).__name__)]
     if not (close(uu, want_user) or uu == want_user):
         bad.append(("units.to_user_units", want_user, uu))
-    elif unit != "%":
+    if unit != "%":
+        # an absolute unit does not look at the percentage reference: the same answer without one
+        try:
+            u0 = pu.unitsToUserUnits(text)
+            if not (close(u0, want_user) or u0 == want_user):
+                bad.append(("units.to_user_units_no_reference", want_user, u0))
+        except Exception as ex:  # pylint: disable=broad-except
+            bad.append(("units.to_user_raises", want_user, type(ex).__name__))
+    if not bad and unit != "%":
         # converting back returns the original value
         try:
             back = pu.userUnitToUnits(uu, unit)
@@ -117,8 +125,8 @@ def judge_none(pu, text, ref):
     bad = []
     try:
         pv = pu.parseLengthWithUnits(text)
-        if pv != (None, None):
-            bad.append(("units.no_numeric_part_parses_to_none", [None, None], list(pv)))
+        if not (pv is None or (isinstance(pv, (tuple, list)) and len(pv) >= 1 and pv[0] is None)):       # "yields None": no value, whatever the shape
+            bad.append(("units.no_numeric_part_parses_to_none", [None, None], repr(pv)))
         uu = pu.unitsToUserUnits(text, ref)
         if uu is not None:
             bad.append(("units.unsupported_yields_none", None, uu))
@@ -169,7 +177,8 @@ def run(ctx):
         raise vlib.MachineryError("Units.tla Malformed and harness MALFORMED disagree: %r" % (set(MALFORMED) - set(kinds)))
     # None input
     ctx.count(("None",))
-    if pu.parseLengthWithUnits(None) != (None, None):
+    pn = pu.parseLengthWithUnits(None)
+    if not (pn is None or pn[0] is None):
         ctx.violation("units.no_numeric_part_parses_to_none", {"mode": "G", "text": None}, [None, None], repr(pu.parseLengthWithUnits(None)))
     # the code's own tables against each other through a value the spec knows: 1 unit
     ctx.traces += n
